@@ -780,7 +780,7 @@ benign('B-helper-extracted-status-setter', ['C02', 'C05'], [
 # extraction, match <-> combinator, early returns, renames, reordered pure statements, added tracing).
 # Every property must stay silent on them, and defects seeded ON TOP of them must still be reported.
 ALLP = ['C%02d' % i for i in range(1, 18)]
-for _r in ('R1', 'R2', 'R3', 'R4', 'R5', 'R6', 'S1', 'S2', 'S3', 'S4', 'S5', 'S6'):
+for _r in ('R1', 'R2', 'R3', 'R4', 'R5', 'R6', 'S1', 'S2', 'S3', 'S4', 'S5', 'S6', 'T3'):
     benign(f'B-refactor-{_r}', ALLP, [], patch=f'sa/benign/{_r}.diff')
 
 IDB = 'src/incarnation_db.rs'
